@@ -53,6 +53,24 @@ for sd in sorted(glob.glob(V + '/seeded/*/')):
             res[tier] = {'exit': rc, 'violations': len(viol), 'keys': keys[:6], 'first': what[0] if what else None, 'wall_s': round(time.time() - t0, 1)}
             if rc == 1 and viol: break
         res['patch'] = patch
+    # a change assigned to one property may be caught by the check of another (e.g. a compiler change that alters accepted values is C01's)
+    ALSO = {'C08': ['C01'], 'C11': ['C01'], 'C15': ['C01'], 'C02': ['C01'], 'C03': ['C01'], 'C12': ['C03']}
+    own_caught = any(isinstance(v, dict) and v.get('exit') == 1 and v.get('violations') for v in res.values())
+    if patch is not None and not own_caught and 'status' not in res:
+        for other in ALSO.get(pid, []):
+            assert git('apply', sd + patch).returncode == 0
+            t0 = time.time()
+            try:
+                r = subprocess.run(['python3-vt', V + '/check.py', other, '--tier', 'quick'], env=env, stdout=subprocess.PIPE, stderr=subprocess.STDOUT, text=True, timeout=5400)
+                rc, out = r.returncode, r.stdout
+            except subprocess.TimeoutExpired:
+                rc, out = 124, ''
+            finally:
+                git('checkout', '--', '.'); git('clean', '-fdq')
+            viol = [l for l in out.split('\n') if l.startswith('VIOLATION')]
+            keys = [l.strip()[5:].strip()[:160] for l in out.split('\n') if l.strip().startswith('key:')]
+            res['other:' + other] = {'exit': rc, 'violations': len(viol), 'keys': keys[:4], 'wall_s': round(time.time() - t0, 1)}
+            if rc == 1 and viol: break
     meta['detected_by'] = res
     json.dump(meta, open(mp, 'w'), indent=1)
     rows.append((sid, pid, res))
